@@ -240,6 +240,16 @@ func genLarge(r *core.Rand, tier string) core.Case {
 				if r.Chance(4) {
 					i = []int{-1, m}[r.Intn(2)]
 				}
+				if i >= 0 && i < m && len(lines)+1 <= nops && r.Chance(35) {
+					// Values[i] = v right before Remove(i), no Fix (v mostly misleads a one-direction repair)
+					e := sim.arr[0][i]
+					v := fresh(len(sim.vals))
+					if r.Chance(80) {
+						v = sim.advValue(r, 0, e, cn)
+					}
+					lines = append(lines, fmt.Sprintf("set %d %d", i, v))
+					sim.vals[e] = v
+				}
 				lines = append(lines, fmt.Sprintf("rm %d", i))
 				if i >= 0 && i < m {
 					sim.remove(0, sim.arr[0][i])
@@ -445,7 +455,26 @@ func genLarge(r *core.Rand, tier string) core.Case {
 				sim.attach(k, sim.alloc(v))
 			case 3:
 				e := handle()
-				lines = append(lines, fmt.Sprintf("rm %s %d", H, e))
+				if sim.own[e] == k && r.Chance(40) {
+					// e.Value = v right before Remove(e), no Fix: as `setrm` or as `setv` + `rm`
+					v := fresh(e)
+					if r.Chance(80) {
+						v = sim.advValue(r, k, e, cnow[k])
+					}
+					sim.vals[e] = v
+					if len(lines)+1 <= nops && r.Chance(40) {
+						lines = append(lines, fmt.Sprintf("setv %d %d", e, v), fmt.Sprintf("rm %s %d", H, e))
+					} else {
+						lines = append(lines, fmt.Sprintf("setrm %s %d %d", H, e, v))
+					}
+				} else if sim.own[e] < 0 && r.Chance(30) {
+					// a stale handle: only the value changes
+					v := fresh(e)
+					sim.vals[e] = v
+					lines = append(lines, fmt.Sprintf("setrm %s %d %d", H, e, v))
+				} else {
+					lines = append(lines, fmt.Sprintf("rm %s %d", H, e))
+				}
 				sim.remove(k, e)
 			case 4:
 				e := handle()
@@ -520,6 +549,16 @@ func genLarge(r *core.Rand, tier string) core.Case {
 			case 2, 3:
 				// (3: the forced removal; the generic functions have no PopAll — the forced 0 is a Pop)
 				i := index(0)
+				if len(lines)+1 <= nops && r.Chance(35) {
+					// data[i] = v right before Remove(h, i), no Fix
+					e := sim.arr[0][i]
+					v := fresh(len(sim.vals))
+					if r.Chance(80) {
+						v = sim.advValue(r, 0, e, cn)
+					}
+					lines = append(lines, fmt.Sprintf("set %d %d", i, v))
+					sim.vals[e] = v
+				}
 				lines = append(lines, fmt.Sprintf("rm %d", i))
 				sim.remove(0, sim.arr[0][i])
 			case 4:
